@@ -16,6 +16,8 @@ func checkC05(c *Ctx) {
 	r.Rule("R05.2", "string-like values are quoted: in logfmt mode (mode bits pruned, testing/debug dump excluded) no site copies message, value, error text, fallback formatting or the logger name into the record verbatim; only keys (legal-key domain), strconv/time output and user marshaller output are written raw")
 	r.Rule("R05.8", "value fidelity (necessary for 'parses back to its exact value'): as R04.8, in logfmt mode")
 	r.Rule("R05.10", "the message is handed on as given: from the verbs down to the encoder's message field every hop passes its message parameter itself; no hop passes a value computed from it (re-sliced, trimmed, concatenated or merged at a join)")
+	r.Rule("R02.6", "(shared with C02) the pooled formatting context is returned to the pool by the normal path only, after the Write, and not used afterwards: a context put back by a deferred call after a panic inside a value's own method carries the half-built state (group prefix, colours) into the records that follow")
+	r.Rule("R05.11", "pair grammar of the fixed members: over every mode-feasible path of the printers of time, logger, level, msg and caller no two pairs follow each other without a separator, no separator follows a separator or an opening brace or precedes a closing one, whatever flags decide which parts are printed")
 	r.Rule("R05.9", "every attribute under its own key: the de-duplication of a member list merges two attributes only when their Key() strings are equal (its equality function returns nothing but a.Key() == b.Key(), identity of the two values, or a constant)")
 	r.Rule("R08.1", "(shared with C08) what a record says was logged by this call: nothing on the print path writes memory that outlives the call other than the pooled objects of this call")
 	r.Rule("R08.2", "(shared with C08) attribute lists that are sorted/compacted in place or appended to belong to this call, never to a logger, handler, group or caller")
@@ -41,8 +43,10 @@ func checkC05(c *Ctx) {
 		c05Keys(c, p, m, mr)
 		c05Quoting(c, p, m, mr)
 		valueFidelity(c, p, m, mr, "R05.8")
+		fixedMemberGrammar(c, p, m, Mode{false, true}, "R05.11")
 		messageIdentity(c, p, "R05.10")
 		messageEmittedAsIs(c, p, m, mr, "R05.10")
+		c02Pool(c, p, m)
 		dedupeEquality(c, p, m, "R05.9")
 		c08Stores(c, p, m)
 		newlineRule(c, p, mr, "R05.4", map[string]string{"PrintCtx.End": "the record terminator of End(true)", "PrintCtx.EndArray": "EndArray(newline) for user marshallers", "Entry.printImpl": "blank-line shortcut"})
